@@ -513,7 +513,7 @@ Family(f) ==
            F({"a", "dq", "bsl", "eacute", "astral", "lt", "lb", "rb", "esc_expr", "esc_block", "esc_cmt", "cmt"},
              3, {0}, {"xhtml_escape"}, {"all"}, {DefaultS}, <<>>)
       [] f = "control" ->   \* if / elif / else, for with break / continue / else
-           F({"a", "e_x", "if_t", "if_f", "if_x1", "elif_t", "else", "end", "for_x", "for_e", "break", "continue"},
+           F({"a", "e_x", "if_t", "if_x1", "elif_f", "else", "end", "for_x", "for_e", "break", "continue"},
              4, {0}, {"xhtml_escape"}, {"all"}, {DefaultS}, <<>>)
       [] f = "while" ->     \* while with a counter (prefix: set k = 0)
            F({"e_k", "while_k", "while_f", "set_kinc", "if_k1", "break", "continue", "else", "end"},
@@ -526,14 +526,14 @@ Family(f) ==
              3, {0}, {"xhtml_escape"}, {"all"}, {DefaultS}, <<"for_x", "try">>)
       [] f = "apply" ->     \* apply blocks: nested function, scoping, break across apply
            F({"a", "e_s", "e_x", "raw_s", "apply_wrap", "apply_esc", "for_x", "for_y", "set_k0", "e_k", "break", "end", "e_boom"},
-             3, {0}, AEboth, {"all"}, {DefaultS}, <<>>)
+             3, {0}, {"xhtml_escape"}, {"all"}, {DefaultS}, <<>>)
       [] f = "loader" ->    \* extends / block / include through the loader, per-file settings
            F({"a", "e_s", "ext_base", "inc_inc", "inc_inc_sq", "inc_base", "block_p", "block_q", "end", "ae_none", "ae_x", "for_x",
               "ws_oneline", "sp_nl_sp"},
-             2, {1, 2, 3, 4, 5}, AEboth, {"all", "single"}, {DefaultS}, <<>>)
+             2, {1, 2, 3, 4, 5}, AEboth, {"single"}, {DefaultS}, <<>>)
       [] f = "ws" ->        \* whitespace filtering per text node and whitespace directives
            F({"a", "sp", "nl", "tab", "sp_nl_sp", "a_sp_sp_a", "cmt", "esc_expr", "e_n", "ws_all", "ws_single", "ws_oneline"},
-             3, {0}, {"xhtml_escape"}, {"default", "single", "oneline"}, {DefaultS}, <<>>)
+             3, {0}, {"xhtml_escape"}, {"default", "oneline"}, {DefaultS}, <<>>)
       [] f = "errors" ->    \* ill-formed templates and the line of the ParseError
            F({"nl", "a", "if_t", "for_x", "try", "end", "else", "elif_t", "except", "finally", "break", "continue", "bogus", "bogus_arg",
               "empty_block", "empty_block_tight", "e_empty", "e_empty_tight", "cmt_open", "open_expr", "open_block",
@@ -541,7 +541,7 @@ Family(f) ==
               "if_t_ml", "e_s_ml", "end_tight"},
              3, {0}, {"xhtml_escape"}, {"all"}, {DefaultS}, <<>>)
       [] f = "values" ->    \* C20: every value type / string through expression, raw, explicit escape under both settings
-           F({"e_s", "e_s_tight", "e_b", "e_n", "e_o", "e_t", "e_esc_s", "raw_s", "raw_b", "raw_o", "ae_none", "ae_x"},
+           F({"e_s", "e_s_tight", "e_b", "e_n", "e_o", "e_t", "e_esc_s", "raw_s", "raw_b", "raw_o", "ae_none", "ae_x", "ae_empty"},
              2, {0}, AEboth, {"all"}, AllS, <<>>)
       [] f = "escfiles" ->  \* C20: autoescape scoping across include / extends / apply
            F({"e_s", "raw_s", "ae_none", "ae_x", "inc_inc", "ext_base", "block_p", "end", "apply_wrap", "apply_esc"},
